@@ -539,6 +539,9 @@ func conform(t reflect.Type, values []reflect.Value) (out []reflect.Value, err e
 		// Already of the right kind, don't bother converting.
 		if v.Kind() == t.Kind() {
 			if v.Type() != t {
+				if !v.Type().ConvertibleTo(t) {
+					return nil, fmt.Errorf("cannot convert %s to %s", v.Type(), t)
+				}
 				v = v.Convert(t)
 			}
 			out = append(out, v)
@@ -724,6 +727,11 @@ func setField(tokens []lexer.Token, strct reflect.Value, field structLexerField,
 			fieldValue, err = conform(sliceElemType, fieldValue)
 			if err != nil {
 				return Wrapf(pos, err, "failed to conform")
+			}
+			for _, v := range fieldValue {
+				if !v.Type().AssignableTo(sliceElemType) {
+					return Errorf(pos, "unsupported field type %s for field %s", f.Type(), field.Name)
+				}
 			}
 			f.Set(reflect.Append(f, fieldValue...))
 		}
